@@ -224,10 +224,13 @@ def expected(shape, rules):
 def run_privacy(shape, rules, style):
     fn = "mod." + shape
     opts = copy.copy(OPTS)
-    opts.privacy = []
+    strings = []
     for priv, kind in rules:
         pn = priv.lower() if style != 2 else priv.capitalize()
-        opts.privacy.append(parse_privacy_tuple(STYLES[style] % (pn, KINDS[kind][0](fn)), "--privacy"))
+        strings.append(STYLES[style] % (pn, KINDS[kind][0](fn)))
+    # the rule strings take the way they take from the command line / a config file: through the converter of Options.privacy
+    from pydoctor.options import _convert_privacy
+    opts.privacy = _convert_privacy(strings)
     s = model.System(opts)
     mod = model.Module(s, "mod")
     s.addObject(mod)
@@ -251,7 +254,7 @@ def run_privacy(shape, rules, style):
 @harness(
     parts=lambda: [[s, k] for s in range(len(SHAPES) if THOROUGH else 5) for k in range(-1, len(KINDS))],
     timeout=(200, 1800), cls="F", tracing="concrete-after-choice", twin="first",
-    code=["pydoctor.model.System.privacyClass", "pydoctor.model.Documentable.privacyClass/isPrivate", "pydoctor.utils.parse_privacy_tuple", "pydoctor.qnmatch.qnmatch (concrete patterns)"],
+    code=["pydoctor.model.System.privacyClass", "pydoctor.model.Documentable.privacyClass/isPrivate", "pydoctor.options._convert_privacy", "pydoctor.utils.parse_privacy_tuple", "pydoctor.qnmatch.qnmatch (concrete patterns)"],
     bounds={"quick": "rule lists of <= 3 rules; each rule: privacy in {HIDDEN, PRIVATE, PUBLIC} x 8 pattern kinds (exact name, '**', 'mod.*', '*', 'other.**', one-char-too-long '?', '?' standing for the dot, brackets incl. '[.]'); 5 name shapes (x, _x, __x__, __x, _x__); 3 spellings of the rule string (chosen by the list)",
             "thorough": "same with <= 4 rules and 8 name shapes (adds _x__, x_, __init__, _)"},
     outside="rule lists longer than the bound; cache behaviour across changes of the option list (cache is per name by design)",
